@@ -3,6 +3,7 @@ package vrt
 import (
 	"fmt"
 	"sync"
+	"unsafe"
 )
 
 // in reports the active execution if the caller must go through the
@@ -367,4 +368,93 @@ func (o *Once) Do(f func()) {
 		e.release(&o.vc)
 	}()
 	f()
+}
+
+// Cond replaces sync.Cond in instrumented code.
+type Cond struct {
+	L       sync.Locker
+	real    *sync.Cond
+	waiters []*condWaiter
+	vc      vclock
+}
+
+type condWaiter struct{ signalled bool }
+
+// NewCond replaces sync.NewCond.
+func NewCond(l sync.Locker) *Cond { return &Cond{L: l, real: sync.NewCond(l)} }
+
+func (c *Cond) Wait() {
+	e := in()
+	if e == nil {
+		if cur != nil {
+			return
+		}
+		c.real.Wait()
+		return
+	}
+	w := &condWaiter{}
+	c.waiters = append(c.waiters, w)
+	c.L.Unlock()
+	e.point("Cond.Wait")
+	for !w.signalled {
+		e.block(func() bool { return w.signalled }, "Cond.Wait")
+	}
+	e.acquire(&c.vc)
+	c.L.Lock()
+}
+
+func (c *Cond) Signal() {
+	e := in()
+	if e == nil {
+		if cur != nil {
+			return
+		}
+		c.real.Signal()
+		return
+	}
+	e.point("Cond.Signal")
+	e.releaseMerge(&c.vc)
+	if len(c.waiters) > 0 {
+		c.waiters[0].signalled = true
+		c.waiters = c.waiters[1:]
+	}
+}
+
+func (c *Cond) Broadcast() {
+	e := in()
+	if e == nil {
+		if cur != nil {
+			return
+		}
+		c.real.Broadcast()
+		return
+	}
+	e.point("Cond.Broadcast")
+	e.releaseMerge(&c.vc)
+	for _, w := range c.waiters {
+		w.signalled = true
+	}
+	c.waiters = nil
+}
+
+// A wraps the receiver (or the pointer argument) of a sync/atomic operation:
+// the operation that follows is a scheduling point and, for the race oracle,
+// an acquire and a release on the word it touches.
+func A[T any](p *T, site string) *T {
+	if e := in(); e != nil && e.running != nil {
+		e.point("atomic " + site)
+		if e.races != nil {
+			if e.atomics == nil {
+				e.atomics = map[unsafe.Pointer]*vclock{}
+			}
+			vc := e.atomics[unsafe.Pointer(p)]
+			if vc == nil {
+				vc = &vclock{}
+				e.atomics[unsafe.Pointer(p)] = vc
+			}
+			e.acquire(vc)
+			e.releaseMerge(vc)
+		}
+	}
+	return p
 }
